@@ -187,7 +187,9 @@ def run(rep, pdb, tier):
             rep.missing(key, rule, "impl not found (%d)" % len(impls))
         else:
             items = [str(x).split("::")[-1] for x in impls[0].get("items", [])]
-            rep.add(key, rule, items == [only], None, "items: %s" % items, where="%s:%d" % (impls[0]["file"], impls[0]["span"][0]))
+            # anchored in the required method's body, so that properties whose routines compare element values import it
+            req = [f_ for f_ in pdb.local_fns() if f_.get("impl_trait") == tr and f_.get("name") == only and str(f_.get("impl_self", "")).startswith("complex::Complex")]
+            rep.add(key, rule, items == [only], req[0]["body"] if req else None, "items: %s" % items, where="%s:%d" % (impls[0]["file"], impls[0]["span"][0]))
     # ---- abs / arg
     fn = pdb.fn("complex::Complex<f64>::abs")
     key, rule = "abs-arg/abs", "abs = sqrt(abs_sqr(self))"
@@ -247,6 +249,33 @@ def run(rep, pdb, tier):
             ok = t[0] == "num" and t[1] == want
         rep.add("element-traits/%s/%s" % (tr.split("::")[-1], st), r_, ok, f["body"], show(t, ctx)[:80], where=loc(f["body"]))
         n_prim += 1
+    # ---- no trait method shadows an inherent method of Complex
+    # method resolution tries by-value receivers first: a trait method `fn m(self)` implemented for Complex<T> is found BEFORE the
+    # inherent `fn m(&self)` whenever the trait is in scope, so `z.conj()` would silently become the trait's (default) body
+    inherent = {}
+    for f_ in pdb.local_fns():
+        if str(f_.get("impl_self") or "").startswith("complex::Complex<") and not f_.get("impl_trait") and f_.get("params"):
+            inherent.setdefault(f_.get("name"), f_)
+    shadows, n_tr = [], 0
+    for im in pdb.impls:
+        tr = str(im.get("trait") or "")
+        if not str(im.get("self_ty", "")).startswith("complex::Complex<") or not tr or tr.startswith("std::") or tr.startswith("core::"):
+            continue
+        n_tr += 1
+        provided = [f_ for f_ in pdb.local_fns() if f_["path"].startswith(tr + "::") and f_["path"].count("::") == tr.count("::") + 1]
+        overridden = [f_ for f_ in pdb.local_fns() if f_.get("impl_trait") == tr and str(f_.get("impl_self") or "").startswith("complex::Complex<")]
+        for f_ in provided + overridden:
+            nm = f_.get("name") or f_["path"].split("::")[-1]
+            ih = inherent.get(nm)
+            if ih is None or not f_.get("params"):
+                continue
+            by_value = not str(f_["params"][0].get("ty", "")).startswith("&")
+            ih_ref = str(ih["params"][0].get("ty", "")).startswith("&")
+            if by_value and ih_ref:
+                shadows.append((f_, ih))
+    rep.add("no-shadow", "no local trait implemented for Complex has a by-value method with the name of an inherent `&self` method (it would be chosen instead of the inherent one wherever the trait is in scope)",
+            not shadows, shadows[0][0]["body"] if shadows else None, "local traits implemented for Complex: %d; shadowing methods: %s" % (n_tr, [f_["path"] for f_, _ in shadows]),
+            where=("%s:%d" % (shadows[0][0]["file"], shadows[0][0]["span"][0])) if shadows else "src/complex/mod.rs")
     rep.floor("element-traits/", 20)
     rep.floor("field/", 14)
     rep.floor("assign-bit-identical/", 8)
